@@ -209,22 +209,22 @@ impl W19 {
     /// walk a registry page by page (page size `limit`, None = the contract's default), the way a client does
     pub fn walk_pairs(&self, limit: Option<u32>) -> Vec<(Vec<i64>, i64)> {
         let mut out = vec![]; let mut cur: Option<[AssetInfo; 2]> = None;
-        for _ in 0..200 { let pg = self.pairs_page(cur.clone(), limit); if pg.is_empty() { break; } cur = Some(pg.last().unwrap().asset_infos.clone()); out.extend(pg.iter().map(|p| self.pair_row(p))); }
+        for _ in 0..40 { let pg = self.pairs_page(cur.clone(), limit); if pg.is_empty() { break; } cur = Some(pg.last().unwrap().asset_infos.clone()); out.extend(pg.iter().map(|p| self.pair_row(p))); }
         out
     }
     pub fn walk_trios(&self, limit: Option<u32>) -> Vec<(Vec<i64>, i64)> {
         let mut out = vec![]; let mut cur: Option<[AssetInfo; 3]> = None;
-        for _ in 0..200 { let pg = self.trios_page(cur.clone(), limit); if pg.is_empty() { break; } cur = Some(pg.last().unwrap().asset_infos.clone()); out.extend(pg.iter().map(|p| self.trio_row(p))); }
+        for _ in 0..40 { let pg = self.trios_page(cur.clone(), limit); if pg.is_empty() { break; } cur = Some(pg.last().unwrap().asset_infos.clone()); out.extend(pg.iter().map(|p| self.trio_row(p))); }
         out
     }
     pub fn walk_vaults(&self, limit: Option<u32>) -> Vec<(i64, i64)> {
         let mut out = vec![]; let mut cur: Option<Vec<u8>> = None;
-        for _ in 0..200 { let pg = self.vaults_page(cur.clone(), limit); if pg.is_empty() { break; } cur = Some(pg.last().unwrap().asset_info_reference.clone()); out.extend(pg.iter().map(|p| self.vault_row(p))); }
+        for _ in 0..40 { let pg = self.vaults_page(cur.clone(), limit); if pg.is_empty() { break; } cur = Some(pg.last().unwrap().asset_info_reference.clone()); out.extend(pg.iter().map(|p| self.vault_row(p))); }
         out
     }
     pub fn walk_incentives(&self, limit: Option<u32>) -> Vec<(i64, i64)> {
         let mut out = vec![]; let mut cur: Option<AssetInfo> = None;
-        for _ in 0..200 {
+        for _ in 0..40 {
             let pg = self.incentives_page(cur.clone(), limit); if pg.is_empty() { break; }
             let last = pg.last().unwrap(); let i = self.idx_by_raw(&last.lp_reference);
             if i < 0 { break; }
@@ -294,7 +294,7 @@ pub fn run_history(out: &mut Out, uni: &str, h: &[Op], record: bool) -> HistoryR
         obs.push(if ok { "0".into() } else { "1".into() });
         // ---- monitors: the property's clauses on what the real contracts report -------------------------------------------------
         out.monitor_evals += 1;
-        let fail = |out: &mut Out, what: String| out.monitor_fail("C19", &format!("op #{k} ({}): {what}", op.kind()), replay.clone());
+        let fail = |out: &mut Out, what: String| mfail(out, "C19", &format!("op #{k} ({}): {what}", op.kind()), replay.clone());
         // (a) at most one entry per asset set, in every registry
         for (name, rows) in [("pair", &after.pairs), ("trio", &after.trios)] {
             for i in 0..rows.len() { for j in 0..i { if set_of(&rows[i].0) == set_of(&rows[j].0) { fail(out, format!("two {name} entries for the same asset set {:?}", rows[i].0)); } } }
@@ -434,7 +434,7 @@ pub fn run_history(out: &mut Out, uni: &str, h: &[Op], record: bool) -> HistoryR
         let check = |out: &mut Out, name: &str, n_walk: usize, dup: bool, n_raw: usize, unsafe_keys: bool| {
             if dup || n_walk != n_raw {
                 let what = format!("{name} pagination with page size {:?} returned {} entries{} but the registry holds {}", limit, n_walk, if dup { " (with repetitions)" } else { "" }, n_raw);
-                if unsafe_keys && !dup && n_walk < n_raw { out.known_hit("C19", KNOWN_CURSOR, &what, replay.clone()); } else { out.monitor_fail("C19", &what, replay.clone()); }
+                if unsafe_keys && !dup && n_walk < n_raw { out.known_hit("C19", KNOWN_CURSOR, &what, replay.clone()); } else { mfail(out, "C19", &what, replay.clone()); }
             }
         };
         let wp = w.walk_pairs(limit); let d = { let mut s = wp.clone(); s.sort(); s.dedup(); s.len() != wp.len() };
